@@ -15,7 +15,7 @@ BOUNDS = {
     "quick": "every connected graph on 2..5 vertices (networkx atlas, 30 graphs, vertices relabelled non-contiguously) x "
              "every focal vertex; every connected 6-vertex graph with <= 9 edges at two focal vertices; cycles C6..C8, K6 at one focal vertex; phi and all u_v unconstrained reals (identity of "
              "polynomials); call histories of length 2 over a pool of 3 named motifs with fresh symbols per call",
-    "thorough": "every connected graph on 2..6 vertices (142 graphs) x every focal vertex; cycles to C10; histories of "
+    "thorough": "every connected graph on 2..6 vertices (142 graphs) x every focal vertex; every connected 7-vertex graph with <= 9 edges at one focal vertex; cycles to C10; histories of "
                 "length 3 over a pool of 4 named motifs",
 }
 OUTSIDE = "motifs with 7+ vertices other than cycles (the library's own 2^|E| enumeration is the cost); unnamed motifs " \
@@ -68,6 +68,14 @@ def configs(tier):
                 roots = sorted(lab.values())
                 for root in (roots[gi % 6], roots[(gi + 3) % 6]):
                     cfgs.append({"name": f"atlas{gi}-n6m{g.number_of_edges()}-root{root}", "kind": "single", "edges": edges, "root": root, "gname": f"g{gi}"})
+    if tier == "thorough":
+        # sparse 7-vertex motifs (the library enumerates 2^|E| edge subsets per component, so dense ones are out of reach)
+        for gi, g in enumerate(_atlas(7)):
+            if g.number_of_nodes() == 7 and g.number_of_edges() <= 9:
+                lab = _relabel(7)
+                edges = [(lab[a], lab[b]) for a, b in g.edges()]
+                roots = sorted(lab.values())
+                cfgs.append({"name": f"atlas{gi}-n7m{g.number_of_edges()}-root{roots[gi % 7]}", "kind": "single", "edges": edges, "root": roots[gi % 7], "gname": f"g{gi}"})
     for n in range(6, 9 if tier == "quick" else 11):
         edges = [(i, (i + 1) % n) for i in range(n)]
         cfgs.append({"name": f"cycle{n}-root0", "kind": "single", "edges": edges, "root": 0, "gname": f"c{n}"})
